@@ -40,7 +40,7 @@ Theorem C02_binary_rules_exact :
   /\ exact2_1 f_div (fun x y => y <> 0) (flip2 jvp_true_divide_1)
   /\ exact2_0 f_logaddexp all_R2 (flip2 jvp_logaddexp_0) /\ exact2_1 f_logaddexp all_R2 (flip2 jvp_logaddexp_1)
   /\ exact2_0 f_arctan2 (fun x y => 0 < y) (flip2 jvp_arctan2_0) /\ exact2_1 f_arctan2 (fun x y => 0 < y) (flip2 jvp_arctan2_1)
-  /\ exact2_0 f_power (fun x y => 0 < x /\ y <> 0) (flip2 jvp_power_0)
+  /\ exact2_0 f_power (fun x y => 0 < x) (flip2 jvp_power_0)
   /\ exact2_1 f_power (fun x y => 0 < x) (flip2 jvp_power_1).
 Proof.
   exact (conj j_add_0 (conj j_add_1 (conj j_subtract_0 (conj j_subtract_1 (conj j_divide_1 (conj j_true_divide_1
